@@ -233,7 +233,7 @@ _add(
          "new layer is run k steps, cleared, compared state-by-state with a freshly built copy carrying its parameters and "
          "adaptations, and both replay 5 steps. One evaluation = one compared step or one clear position; distinct = "
          "(layer kind / combine, neuron, synapse, delay, capture, batch, clear position class) abstractions.",
-    required=["wiring_steps_checked", "component_states_compared", "clear_positions_checked", "replays_checked", "recurrent_layers_with_one_sided_output_transforms", "connection_kwargs_routing_checks", "clears_with_pending_updates_checked", "bicliques_with_inplace_transform_before_another_group", "recurrent_steps_with_additional_connection_inputs"],
+    required=["wiring_steps_checked", "component_states_compared", "clear_positions_checked", "replays_checked", "recurrent_layers_with_one_sided_output_transforms", "connection_kwargs_routing_checks", "clears_with_pending_updates_checked", "bicliques_with_inplace_transform_before_another_group", "recurrent_steps_with_additional_connection_inputs", "steps_at_a_new_batch_size_after_clear"],
     floor={"quick": 150, "thorough": 500},
     exhaustive={"quick": ["clear() at every position 0..T of each generated run"], "thorough": ["clear() at every position 0..T of each generated run"]},
     text="Held on every topology and run explored: layer outputs (and captured intermediates) equal the documented "
